@@ -378,7 +378,15 @@ inline void obs_common(Ev& e, C& c) {
 		e.planbool = static_cast<bool>(p) ? 1 : 0;
 		for (auto it = p.begin(); it; ++it) { if (n < MAXPLAN) e.plan[n] = rd_task(*it); ++n; }
 		e.planlen = static_cast<uint8_t>(n); e.flags |= OF_PLAN;
-		if (e.planbool) { e.pfirst = rd_task(p.first()); e.plast = rd_task(p.last()); }
+		// first()/last(): through the read-only plan every control offers; through the mutable plan only when the
+		// probe of DESIGN.md finding F11 (PlanT::first()/last() declared but not defined) links
+		const C& cc = c; auto cp = cc.plan();
+		if (static_cast<bool>(cp) != static_cast<bool>(p)) e.planbool = 2;
+		if (e.planbool == 1) { e.pfirst = rd_task(cp.first()); e.plast = rd_task(cp.last());
+#ifdef VX_PLAN_FIRSTLAST
+			if (!(rd_task(p.first()) == e.pfirst) || !(rd_task(p.last()) == e.plast)) e.planbool = 3;
+#endif
+		}
 	}
 #endif
 }
@@ -444,6 +452,19 @@ inline void perform_full(C& c, const Act& a, uint8_t sid, uint8_t inj, uint8_t m
 	}
 }
 
+template <typename C>
+inline void perform_plan_edit(C& c, const Act& a, uint8_t sid, uint8_t inj, uint8_t meth) {
+	(void)c; (void)a; (void)sid; (void)inj; (void)meth;
+#if VX_PLANS
+	switch (a.k) {
+	case A_PLAN_CHANGE: do_plan_append(c, sid, inj, meth, a.a, a.b, 0); break;
+	case A_PLAN_CHANGEW: do_plan_append(c, sid, inj, meth, a.a, a.b, a.pv); break;
+	case A_PLAN_CLEAR: do_plan_clear(c, sid, inj, meth); break;
+	default: break;
+	}
+#endif
+}
+
 inline int strat_site(uint8_t sid, uint8_t meth) { return sid == ROOT ? 2 * N : (meth == M_EG ? sid : N + sid); }
 
 template <typename C>
@@ -493,7 +514,7 @@ inline void visit_life(C& c, uint8_t sid, uint8_t inj, uint8_t meth, bool thisok
 	const unsigned nmask = len ? ((1u << len) - 1u) : 0u;
 	unsigned k = G.choose(static_cast<unsigned>(menuLife.n) + nmask);
 	if (!k) return;
-	if (k < menuLife.n) perform_full(c, menuLife[k], sid, inj, meth);
+	if (k < menuLife.n) perform_plan_edit(c, menuLife[k], sid, inj, meth);
 	else do_plan_remove(c, sid, inj, meth, k - static_cast<unsigned>(menuLife.n) + 1u);
 #endif
 }
